@@ -89,6 +89,8 @@ def parseOp (ts : List String) : Option Op :=
   | ["rf", n] => do pure (.removeFire (← n.toNat?))
   | ["al", n, a, b] => do pure (.addLeak (← n.toNat?) (← boolP a) (← boolP b))
   | ["rlk", n] => do pure (.removeLeak (← n.toNat?))
+  | ["rens", a, b] => do pure (.renameSource (← a.toNat?) (← b.toNat?))
+  | ["cd", n] => do pure (.clearDemands (← n.toNat?))
   | ["asd", n, p] => do pure (.assignDemand (← n.toNat?) (← p.toNat?))
   | ["ssn", n, nd] => do pure (.setSourceNode (← n.toNat?) (← nd.toNat?))
   | ["ssp", l, p, "O"] => do pure (.setSpeedPattern (← l.toNat?) (← optP p))     -- the Pattern object instead of its name
@@ -216,16 +218,17 @@ def handle (st : Variant × Reg) (line : String) : (Variant × Reg) × String :=
   | ["reset", "round1"] => ((round1, init), "ready")
   | ["reset", "round3"] => ((round3, init), "ready")
   | ["reset", "round4"] => ((round4, init), "ready")
+  | ["reset", "round5"] => ((round5, init), "ready")
   | ["snap"] => (st, snapS st.2)
   | ["inv"] => (st, invS st.2)
   | "check" :: _ =>
     match parseSnap ((line.drop 6).toString) with
     | none => (st, "bad-snapshot")
     | some (s, w) => (st, invS s ++ (if viewsOk s w then " views:ok" else " views:bad"))
-  | ["rens", n, _] =>   -- source.name = ...: nothing the model tracks moves (the harness judges it directly)
-    match n.toNat? with
-    | some n => (st, if AL.has st.2.sources n then "ok" else "error")
-    | none => (st, "bad-op")
+  | ["idd", n, i, p] =>   -- raw: demand_timeseries_list.insert(i, (base, p)) (outside `Op`)
+    match n.toNat?, i.toNat?, optP p with
+    | some n, some i, some p => let (s', o) := insertDemandRaw st.2 n i p; ((st.1, s'), outS o)
+    | _, _, _ => (st, "bad-op")
   | ["sdp", n, i, p] =>   -- raw: demand_timeseries_list[i].pattern_name = p (outside `Op`)
     match n.toNat?, i.toNat?, optP p with
     | some n, some i, some p => let (s', o) := setDemandPatternRaw st.2 n i p; ((st.1, s'), outS o)
